@@ -733,15 +733,20 @@ impl Datamodel for ECMAScriptDatamodel {
                                         Some(item) => {
                                             #[cfg(feature = "Debug")]
                                             debug!("ForEach: #{} {}={:?}", idx, item_name, item);
-                                            let str = js_to_string(item, &mut self.context);
-                                            if self.assign(&str_to_source(item_name), &str_to_source(str.as_str())) {
-                                                if !index.is_empty() {
-                                                    self.set_js_property(index, idx);
-                                                }
-                                                if !execute_body(self) {
-                                                    return false;
-                                                }
-                                            } else {
+                                            // Bind the value itself. Assigning its textual form would
+                                            // evaluate that text as a script (the string item 'x' as the
+                                            // variable x, an empty string as a syntax error).
+                                            // (Integers of the data model are BigInt values; as before
+                                            // they reach the item variable as plain numbers.)
+                                            let value = match item.as_bigint() {
+                                                Some(big) => JsValue::from(big.to_f64()),
+                                                None => item.clone(),
+                                            };
+                                            self.set_js_property(item_name, value);
+                                            if !index.is_empty() {
+                                                self.set_js_property(index, idx);
+                                            }
+                                            if !execute_body(self) {
                                                 return false;
                                             }
                                         }
